@@ -130,7 +130,7 @@ fn main() {
             want_desc: one.is_some(),
             ..Default::default()
         };
-        let pollute_every = params.u64("pollute_every", 5);
+        let pollute_every = params.u64("pollute_every", 50);
         if pollute_every > 0 && rng::mix(idx ^ 0x9e37) % pollute_every == 0 {
             let mut pr = rng::Rng::for_case(4242, seed, idx);
             let _ = catch(|| gen::pollute(&mut pr));
